@@ -24,9 +24,12 @@ import (
 )
 
 type Scenario struct {
-	Starts []int   `json:"starts"`
-	Ends   []int   `json:"ends"`
-	Progs  [][]int `json:"progs"` // per goroutine: the positions it asks, in order
+	Starts    []int   `json:"starts"`
+	Ends      []int   `json:"ends"`
+	Starts2   []int   `json:"starts2,omitempty"` // a second index alive at the same time (nil: none)
+	Ends2     []int   `json:"ends2,omitempty"`
+	ScanFirst int     `json:"scan_first,omitempty"` // which index the sequential scans afterwards ask first
+	Progs     [][]int `json:"progs"`                // per goroutine: its calls in order; a call p asks position p%10 of index p/10
 }
 
 type Case struct {
@@ -50,6 +53,7 @@ type Summary struct {
 	Unstable       int         `json:"unstable"`
 	Classes        []string    `json:"classes"`
 	Complete       bool        `json:"complete"`
+	Phase1         int         `json:"scenarios_completed_at_full_bound,omitempty"`
 	Violations     []Violation `json:"violations"`
 }
 
@@ -72,11 +76,20 @@ const maxSteps = 20000
 // runOne executes one schedule on a fresh index and judges it. class is a coarse description of what
 // happened (to expose vacuous exploration), fail is "" when the property held.
 func runOne(sc Scenario, prefix []int) (e *sched.Exec, class, fail string) {
-	starts, ends := slices.Clone(sc.Starts), slices.Clone(sc.Ends)
-	idx := regions.NewIndex(starts, ends)
+	lists := [][2][]int{{sc.Starts, sc.Ends}}
+	if sc.Starts2 != nil {
+		lists = append(lists, [2][]int{sc.Starts2, sc.Ends2})
+	}
+	var idxs []*regions.Index
+	var given [][2][]int
+	for _, l := range lists {
+		st, en := slices.Clone(l[0]), slices.Clone(l[1])
+		given = append(given, [2][]int{st, en})
+		idxs = append(idxs, regions.NewIndex(st, en))
+	}
 	type answer struct {
-		pos int
-		got []int
+		which, pos int
+		got        []int
 	}
 	answers := make([][]answer, len(sc.Progs))
 	var yield func(int)
@@ -85,8 +98,9 @@ func runOne(sc Scenario, prefix []int) (e *sched.Exec, class, fail string) {
 		t := t
 		bodies[t] = func() {
 			for _, p := range sc.Progs[t] {
-				r := idx.At(p)
-				answers[t] = append(answers[t], answer{p, slices.Clone(r)})
+				w, pos := (p/10)%len(idxs), p%10
+				r := idxs[w].At(pos)
+				answers[t] = append(answers[t], answer{w, pos, slices.Clone(r)})
 				yield(-1)
 				for j := range r {
 					r[j] = -9 - t // what At returns is the caller's: writing into it must be harmless
@@ -99,7 +113,7 @@ func runOne(sc Scenario, prefix []int) (e *sched.Exec, class, fail string) {
 		regions.VerifHooks.Point, regions.VerifHooks.Block, regions.VerifHooks.Wake = h.Point, h.Block, h.Wake
 		yield = h.Point
 	}, bodies)
-	class = fmt.Sprintf("threads=%d preemptions=%d", len(sc.Progs), e.Preemptions())
+	class = fmt.Sprintf("indexes=%d threads=%d preemptions=%d", len(idxs), len(sc.Progs), e.Preemptions())
 	if e.Capped {
 		return e, "capped", ""
 	}
@@ -116,19 +130,27 @@ func runOne(sc Scenario, prefix []int) (e *sched.Exec, class, fail string) {
 			return e, "lost", fmt.Sprintf("goroutine %d finished %d of %d calls", t, len(answers[t]), len(sc.Progs[t]))
 		}
 		for k, a := range answers[t] {
-			if want := brute(sc.Starts, sc.Ends, a.pos); !same(a.got, want) {
-				return e, "wrong-answer", fmt.Sprintf("goroutine %d, call %d: At(%d) = %v, want %v", t, k+1, a.pos, a.got, want)
+			if want := brute(lists[a.which][0], lists[a.which][1], a.pos); !same(a.got, want) {
+				return e, "wrong-answer", fmt.Sprintf("goroutine %d, call %d: At(%d) on index %d = %v, want %v", t, k+1, a.pos, a.which, a.got, want)
 			}
 		}
 	}
-	if !slices.Equal(starts, sc.Starts) || !slices.Equal(ends, sc.Ends) {
-		return e, "args-modified", "the starts/ends given to NewIndex were modified"
+	for w := range idxs {
+		if !slices.Equal(given[w][0], lists[w][0]) || !slices.Equal(given[w][1], lists[w][1]) {
+			return e, "args-modified", "the starts/ends given to NewIndex were modified"
+		}
 	}
 	for pass := 0; pass < 2; pass++ {
-		for i := -1; i <= 3; i++ {
-			got := idx.At(i)
-			if want := brute(sc.Starts, sc.Ends, i); !same(got, want) {
-				return e, "wrong-later", fmt.Sprintf("after the concurrent calls, sequential At(%d) = %v, want %v (pass %d)", i, got, want, pass+1)
+		for k := range idxs {
+			w := (k + sc.ScanFirst) % len(idxs)
+			for i := -1; i <= 3; i++ {
+				var got []int
+				if p := func() (p any) { defer func() { p = recover() }(); got = idxs[w].At(i); return }(); p != nil {
+					return e, "panic-later", fmt.Sprintf("after the concurrent calls, sequential At(%d) on index %d panicked: %v", i, w, p)
+				}
+				if want := brute(lists[w][0], lists[w][1], i); !same(got, want) {
+					return e, "wrong-later", fmt.Sprintf("after the concurrent calls, sequential At(%d) on index %d = %v, want %v (pass %d)", i, w, got, want, pass+1)
+				}
 			}
 		}
 	}
@@ -191,11 +213,9 @@ func scenarios(tier string, emit func(Scenario) bool) {
 	}
 	gen(nil)
 	slices.SortStableFunc(lists, func(a, b []iv) int { return len(a) - len(b) })
-	shapes := [][]int{{1, 1}, {2, 1}, {1, 1, 1}}
-	if tier == "thorough" {
-		shapes = append(shapes, []int{2, 2}, []int{2, 1, 1})
-	}
-	for _, shape := range shapes {
+	ok := true
+	// one shared index, every assignment of positions to the calls
+	single := func(shape []int) {
 		total := 0
 		for _, n := range shape {
 			total += n
@@ -207,14 +227,14 @@ func scenarios(tier string, emit func(Scenario) bool) {
 				sc.Ends = append(sc.Ends, v.e)
 			}
 			pos := make([]int, total)
-			for {
+			for ok {
 				sc.Progs = nil
 				k := 0
 				for _, n := range shape {
 					sc.Progs = append(sc.Progs, slices.Clone(pos[k:k+n]))
 					k += n
 				}
-				if !emit(sc) {
+				if ok = emit(sc); !ok {
 					return
 				}
 				i := total - 1
@@ -228,6 +248,70 @@ func scenarios(tier string, emit func(Scenario) bool) {
 				pos[i]++
 			}
 		}
+	}
+	// Two indexes alive at once, each call on either of them: state that At keeps OUTSIDE the index
+	// (a package-level memo that follows "the index in use") is shared between callers of different indexes.
+	small := [][]iv{{}, {{0, 1}}, {{0, 2}}, {{1, 2}}, {{0, 2}, {1, 2}}}
+	if tier == "thorough" {
+		small = append(small, []iv{{1, 1}}, []iv{{0, 1}, {1, 2}}, []iv{{2, 0}, {0, 2}})
+	}
+	calls := []int{0, 1, 2, 10, 11, 12}
+	double := func(shape []int) {
+		total := shape[0] + shape[1]
+		for _, la := range small {
+			for _, lb := range small {
+				sc := Scenario{Starts: []int{}, Ends: []int{}, Starts2: []int{}, Ends2: []int{}}
+				for _, v := range la {
+					sc.Starts, sc.Ends = append(sc.Starts, v.s), append(sc.Ends, v.e)
+				}
+				for _, v := range lb {
+					sc.Starts2, sc.Ends2 = append(sc.Starts2, v.s), append(sc.Ends2, v.e)
+				}
+				pos := make([]int, total)
+				for ok {
+					both, one := false, false // some call on each index, else the single-index scenarios cover it
+					for _, x := range pos {
+						both = both || calls[x] >= 10
+						one = one || calls[x] < 10
+					}
+					for first := 0; first < 2 && both && one; first++ {
+						sc.ScanFirst = first // what is asked first afterwards may wipe what the concurrent phase left behind
+						sc.Progs = nil
+						k := 0
+						for _, n := range shape {
+							var pr []int
+							for _, x := range pos[k : k+n] {
+								pr = append(pr, calls[x])
+							}
+							sc.Progs = append(sc.Progs, pr)
+							k += n
+						}
+						if ok = emit(sc); !ok {
+							return
+						}
+					}
+					i := total - 1
+					for i >= 0 && pos[i] == len(calls)-1 {
+						pos[i] = 0
+						i--
+					}
+					if i < 0 {
+						break
+					}
+					pos[i]++
+				}
+			}
+		}
+	}
+	// simplest first: fewer calls, fewer goroutines
+	single([]int{1, 1})
+	double([]int{1, 1})
+	single([]int{2, 1})
+	double([]int{2, 1})
+	single([]int{1, 1, 1})
+	if tier == "thorough" {
+		single([]int{2, 2})
+		single([]int{2, 1, 1})
 	}
 }
 
@@ -265,45 +349,62 @@ func main() {
 	sum := Summary{Bound: bound, Complete: true}
 	classes := map[string]bool{}
 	n := 0
-	scenarios(tier, func(sc Scenario) bool {
-		n++
-		if (n-1)%nshards != shard {
-			return true
-		}
-		if time.Now().After(deadline) {
-			sum.Complete = false
-			return false
-		}
-		sum.Scenarios++
-		failed := false
-		st := sched.Explore(bound, func(prefix []int) *sched.Exec {
-			e, class, fail := runOne(sc, prefix)
-			classes[class] = true
-			if e.Preemptions() > 0 {
-				sum.Preemptive++
+	key := func(sc Scenario) string { b, _ := json.Marshal(sc); return string(b) }
+	inQuick := map[string]bool{}
+	explore := func(b int, skipQuick bool) func(sc Scenario) bool {
+		return func(sc Scenario) bool {
+			if skipQuick && inQuick[key(sc)] {
+				return true
 			}
-			if fail != "" && !failed {
-				// determinism gate: the same schedule must fail the same way twice more
-				c := Case{sc, slices.Clone(e.Choices)}
-				_, _, f2 := runOne(sc, c.Schedule)
-				_, _, f3 := runOne(sc, c.Schedule)
-				if f2 == fail && f3 == fail {
-					failed = true
-					if len(sum.Violations) < 8 {
-						sum.Violations = append(sum.Violations, Violation{c, fail + "; schedule:" + describe(e)})
-					}
-				} else {
-					sum.Unstable++
+			if !skipQuick && tier == "thorough" {
+				inQuick[key(sc)] = true
+			}
+			n++
+			if (n-1)%nshards != shard {
+				return true
+			}
+			if time.Now().After(deadline) {
+				sum.Complete = false
+				return false
+			}
+			sum.Scenarios++
+			failed := false
+			st := sched.Explore(b, func(prefix []int) *sched.Exec {
+				e, class, fail := runOne(sc, prefix)
+				classes[class] = true
+				if e.Preemptions() > 0 {
+					sum.Preemptive++
 				}
-			}
-			return e
-		}, func(e *sched.Exec) bool { return !failed })
-		sum.Executions += st.Executions
-		sum.Capped += st.Capped
-		sum.MaxDecisions = max(sum.MaxDecisions, st.MaxDecisions)
-		sum.MaxPreemptions = max(sum.MaxPreemptions, st.MaxPreemptions)
-		return len(sum.Violations) < 8
-	})
+				if fail != "" && !failed {
+					// determinism gate: the same schedule must fail the same way twice more
+					c := Case{sc, slices.Clone(e.Choices)}
+					_, _, f2 := runOne(sc, c.Schedule)
+					_, _, f3 := runOne(sc, c.Schedule)
+					if f2 == fail && f3 == fail {
+						failed = true
+						if len(sum.Violations) < 8 {
+							sum.Violations = append(sum.Violations, Violation{c, fail + "; schedule:" + describe(e)})
+						}
+					} else {
+						sum.Unstable++
+					}
+				}
+				return e
+			}, func(e *sched.Exec) bool { return !failed })
+			sum.Executions += st.Executions
+			sum.Capped += st.Capped
+			sum.MaxDecisions = max(sum.MaxDecisions, st.MaxDecisions)
+			sum.MaxPreemptions = max(sum.MaxPreemptions, st.MaxPreemptions)
+			return len(sum.Violations) < 8
+		}
+	}
+	// quick: the quick scenarios with <= 2 preemptions. thorough: first the SAME scenarios with <= 3
+	// preemptions (a complete statement one bound deeper), then the larger scenarios with <= 2.
+	scenarios("quick", explore(bound, false))
+	if tier == "thorough" && sum.Complete && len(sum.Violations) == 0 {
+		sum.Phase1 = sum.Scenarios
+		scenarios("thorough", explore(2, true))
+	}
 	for c := range classes {
 		sum.Classes = append(sum.Classes, c)
 	}
